@@ -264,7 +264,9 @@ class TypedGen:
         fr = self.fail_rate
         if self.boom_rate and self.booms == 0 and t[0] in ('Opt', 'Res') and t[1] == INT and rng.random() < self.boom_rate:
             self.booms += 1
-            which = rng.choice(['map', 'and_then', 'or_expr'])
+            which = rng.choice(['map', 'and_then', 'or_expr', 'inspect'])
+            if which == 'inspect':
+                return [Act('Inspect', [self.call('boom_ins', [], 'KPanic', blockable=False)])], t
             if which == 'map':
                 return [Act('Map', [self.call('boom_i', [], 'KPanic', blockable=False)])], t
             if which == 'and_then':
